@@ -109,7 +109,8 @@ template <class T> struct TolSet
     {
         using R = typename Eigen::NumTraits<T>::Real;
         const R u = std::numeric_limits<R>::epsilon();
-        return {R(4) * u, R(100) * u, R(1e4) * u, R(1e6) * u, std::sqrt(u), R(1e-3)};
+        // (the first-order back-transformation bounds of the shift modes are only meaningful for tol << 1: nothing above 1e-3)
+        return {R(4) * u, R(100) * u, R(1e4) * u, std::min(R(1e6) * u, R(1e-4)), std::sqrt(u), R(1e-3)};
     }
 };
 
